@@ -4,6 +4,7 @@ import (
 	"fmt"
 
 	"github.com/pomerium/webauthn"
+	"github.com/pomerium/webauthn/cose"
 )
 
 // Sequences of authentication ceremonies on ONE RelyingParty whose storage is changed from outside between the steps (the storage is the
@@ -108,4 +109,65 @@ func init() {
 	register("C01", seqStream("auth.sequence"))
 	register("C16", seqStream("auth.sequence"))
 	register("C07", seqStream("auth.sequence"))
+}
+
+// One PARSED key object used for several verifications in a row (a relying party may keep decoded keys): every call must come out as it
+// does on a freshly parsed key — a rejected signature, an empty or a long message before it must leave nothing behind in the key object.
+func init() {
+	executors["cose.verifySequence"] = func(c *Ctx, stream string, op M) {
+		key := unhx(op["key"].(string))
+		var steps []M
+		switch l := op["steps"].(type) {
+		case []M:
+			steps = l
+		case []any:
+			for _, e := range l {
+				steps = append(steps, e.(M))
+			}
+		}
+		var modelObs []M
+		for _, st := range steps {
+			m := c.Call(M{"op": "cose.verify", "key": op["key"], "data": st["data"], "sig": st["sig"]})
+			if um, _ := m["unmodelled"].(bool); um {
+				c.Unmodelled(stream)
+				return
+			}
+			modelObs = append(modelObs, M{"verified": m["verified"]})
+		}
+		impl := guard(func() M {
+			k, _, err := cose.UnmarshalPublicKey(key)
+			if err != nil {
+				return M{"parsed": false}
+			}
+			var obs []M
+			for _, st := range steps {
+				obs = append(obs, M{"verified": k.Verify(unhx(st["data"].(string)), unhx(st["sig"].(string))) == nil})
+			}
+			return M{"steps": obs}
+		})
+		c.Compare(stream, op, impl, M{"steps": modelObs}, fmt.Sprint(op["_dev"]), true)
+	}
+	register("C12", Stream{"verify.sameKeyObject", func(c *Ctx) {
+		r := c.R
+		n := c.N(6, 200)
+		for i := 0; i < n; i++ {
+			for _, alg := range allAlgs {
+				kp := genKeyPair(r, alg)
+				other := genKeyPair(r, alg)
+				var steps []M
+				for j := 0; j < 3+r.Intn(4); j++ {
+					msg := r.Bytes(pick(r, []int{0, 1, 32, 100, 1000}))
+					sig := kp.Sign(msg)
+					switch r.Intn(4) {
+					case 0:
+						sig = other.Sign(msg) // another key's signature
+					case 1:
+						msg = append([]byte{1}, msg...) // another message
+					}
+					steps = append(steps, M{"data": hx(msg), "sig": hx(sig)})
+				}
+				executors["cose.verifySequence"](c, "verify.sameKeyObject", M{"op": "cose.verifySequence", "key": hx(kp.COSE(true)), "steps": steps, "_dev": fmt.Sprintf("alg%d", alg)})
+			}
+		}
+	}})
 }
